@@ -105,4 +105,57 @@ theorem grouping_on_chai_table :
     wf chaiCfg (.tern (.bin 31868 (.atom 0) (.pre 33 (.atom 1))) (.bin 45 (.bin 45 (.atom 0) (.atom 1)) (.atom 2)) (.tern (.atom 2) (.atom 3) (.atom 4))) = true := by
   decide
 
+/-! ### assignments: Equation() nests to the right -/
+
+/-- what follows an equation is not another assignment symbol (it would be read as part of the equation) -/
+def noAsg (asgs : List Nat) : List Tok → Prop
+  | .asg s :: _ => asgs.contains s = false
+  | _ => True
+
+/-- **Assignments associate to the right, around operator expressions of any shape**: for every chain `e₁ op₁ e₂ op₂ … eₙ` of well-formed
+    operator expressions joined by assignment symbols of `Equation()`'s list, `Equation()` builds `e₁ op₁ (e₂ op₂ (… eₙ))` — each `eᵢ`
+    the tree `precedence_roundtrip` describes — and stops before whatever follows. -/
+theorem equation_roundtrip (c : Cfg) (hN : 2 ≤ c.N) (asgs : List Nat) : ∀ (q : Q), wfQ c asgs q = true → ∀ (rest : List Tok), okAfter c 0 rest → noAsg asgs rest →
+    ∃ f0, ∀ f, f0 ≤ f → runEq c asgs f (rawQ c q ++ rest) = .ok q rest := by
+  intro q
+  induction q with
+  | expr e =>
+    intro hwf rest hok hna
+    obtain ⟨f0, h⟩ := precedence_roundtrip c hN e hwf rest hok
+    refine ⟨f0 + 1, fun f hf => ?_⟩
+    obtain ⟨g, rfl⟩ : ∃ g, f = g + 1 := ⟨f - 1, by omega⟩
+    simp only [runEq, rawQ, h g (by omega)]
+    match rest, hna with
+    | [], _ => rfl
+    | .asg s :: r, hna => simp only [noAsg] at hna; simp only [hna, Bool.false_eq_true, if_false]
+    | .atom _ :: _, _ => rfl
+    | .sym _ :: _, _ => rfl
+    | .lp :: _, _ => rfl
+    | .rp :: _, _ => rfl
+    | .q :: _, _ => rfl
+    | .colon :: _, _ => rfl
+  | eq s l r ih =>
+    intro hwf rest hok hna
+    simp only [wfQ, Bool.and_eq_true] at hwf
+    obtain ⟨⟨hs, hl⟩, hr⟩ := hwf
+    obtain ⟨f1, h1⟩ := precedence_roundtrip c hN l hl (.asg s :: (rawQ c r ++ rest)) trivial
+    obtain ⟨f2, h2⟩ := ih hr rest hok hna
+    refine ⟨max f1 f2 + 1, fun f hf => ?_⟩
+    obtain ⟨g, rfl⟩ : ∃ g, f = g + 1 := ⟨f - 1, by omega⟩
+    have e : rawQ c (.eq s l r) ++ rest = raw c l ++ .asg s :: (rawQ c r ++ rest) := by simp [rawQ]
+    rw [e]
+    simp only [runEq, h1 g (by omega), hs, if_true, h2 g (by omega)]
+
+/-- the assignment symbols of Equation() in the source are C's assignment operators plus ChaiScript's `:=` (as base-256 numbers) -/
+theorem assignment_symbols_are_C : Gen.precAssignSymbols = [61, 15674, 15659, 15661, 15658, 15663, 15653, 4013116, 4013630, 15654, 15710, 15740] ∧
+    Gen.precEquationRecursesIntoEquation = true := by decide
+
+/-- `a = b += c * d` is `a = (b += (c * d))`; `a = b ? c : d` keeps the conditional on the right-hand side -/
+theorem equation_examples :
+    runEq chaiCfg Gen.precAssignSymbols 99 [.atom 0, .asg 61, .atom 1, .asg 15659, .atom 2, .sym 42, .atom 3] =
+      .ok (.eq 61 (.atom 0) (.eq 15659 (.atom 1) (.expr (.bin 42 (.atom 2) (.atom 3))))) [] ∧
+    runEq chaiCfg Gen.precAssignSymbols 99 [.atom 0, .asg 61, .atom 1, .q, .atom 2, .colon, .atom 3] =
+      .ok (.eq 61 (.atom 0) (.expr (.tern (.atom 1) (.atom 2) (.atom 3)))) [] ∧
+    runEq chaiCfg Gen.precAssignSymbols 99 [.atom 0, .asg 61] = .error := by decide
+
 end ChaiVerif.C03Prec
